@@ -520,6 +520,13 @@ class World:
         elif k == 'Unschedule':
             b.raw_delete('/scheduled/' + self.app(op[1]))
             m.process_scheduled(b.list('/scheduled'))
+        elif k == 'UnscheduleRace':
+            # the instance is deleted while an `apps` event naming it is queued: the event is handled first (load_app
+            # finds no manifest), the /scheduled watch afterwards
+            b.raw_delete('/scheduled/' + self.app(op[1]))
+            self._event(1, 'apps', [self.app(op[1])])
+            self._deliver()
+            m.process_scheduled(b.list('/scheduled'))
         elif k == 'PresenceUp':
             if not b.exists('/server.presence/' + sname(op[1])):
                 b.raw_put('/server.presence/' + sname(op[1]), {})
@@ -1338,7 +1345,7 @@ def gen_case(rng, profile='c10', max_ops=None):
         elif k == 'Unschedule' and live:
             i = rng.choice(live)
             live.remove(i)
-            ops.append(['Unschedule', i])
+            ops.append(['UnscheduleRace' if (profile in ('c09', 'sched') and rng.random() < 0.3) else 'Unschedule', i])
         elif k == 'PresenceDown':
             up = [i for i in existing if sstate[i]['up']]
             if up:
